@@ -18,12 +18,13 @@ def cmpOp {α : Type} : Comparison α → Text
 def genCmp (c : Comparison Nat) (target : Text) : SExp :=
   call (cmpOp c) [call target [], .num c.val]
 
+def sizeLhsS (s : Size) : SExp :=
+  match s with
+  | .byte _ => call (cl!"size") []
+  | _ => call (cl!"round-up-power-of-2") [call (cl!"size") [], .num s.mult]
+
 def genSizeComp (c : Comparison Size) : SExp :=
-  let s := c.val
-  let lhs := match s with
-    | .byte _ => call (cl!"size") []
-    | _ => call (cl!"round-up-power-of-2") [call (cl!"size") [], .num s.mult]
-  call (cmpOp c) [lhs, .num (exactByteSize s)]
+  call (cmpOp c) [sizeLhsS c.val, .num (exactByteSize c.val)]
 
 def genTimeComp (secs : Nat) (field : Text) (c : Comparison TimeSpec) : SExp :=
   call (cmpOp c) [call (cl!"quotient") [call (cl!"-") [.num secs, call field []], .num c.val.secs], .num c.val.count]
